@@ -129,6 +129,8 @@ pub fn c05_special(rep: &mut Rep) {
         "1,CONSUMO,CAL,EAMBIENTE,9,12\n2,CONSUMO,CAL,EAMBIENTE,5,5\n1,CONSUMO,ACS,EAMBIENTE,4,12\n1,PRODUCCION,EAMBIENTE,4,30\n2,PRODUCCION,EAMBIENTE,1,9\n3,CONSUMO,ILU,ELECTRICIDAD,1,1",
         "-1,CONSUMO,ACS,TERMOSOLAR,30\n0,CONSUMO,ACS,TERMOSOLAR,10\n-1,CONSUMO,CAL,TERMOSOLAR,30\n-1,PRODUCCION,TERMOSOLAR,25\n0,CONSUMO,CAL,TERMOSOLAR,2\n1,CONSUMO,ILU,ELECTRICIDAD,1",
         "DEMANDA,CAL,100,50,0\nDEMANDA,ACS,20,20,20\nDEMANDA,CAL,30,10,5\nDEMANDA,ACS,10,10,10\nDEMANDA,REF,0,0,7\n1,CONSUMO,CAL,GASNATURAL,150,70,6\n1,CONSUMO,ACS,GASNATURAL,35,35,35",
+        // a demand declared as zero in every step
+        "DEMANDA,CAL,0,0\nDEMANDA,ACS,5,5\n1,CONSUMO,ACS,GASNATURAL,6,6",
         // demand lines that repeat: two identical zones, a third line equal to the running total of the first two
         "DEMANDA,CAL,100,50\nDEMANDA,CAL,100,50\nDEMANDA,REF,50,10\nDEMANDA,REF,100,30\nDEMANDA,REF,150,40\nDEMANDA,ACS,10,20\nDEMANDA,ACS,10,20\nDEMANDA,ACS,10,20\n1,CONSUMO,CAL,GASNATURAL,150,70",
         // free-text comments that contain words of the format itself (header words, tags, the metadata marker)
@@ -517,6 +519,8 @@ pub fn c07(rep: &mut Rep, seed: u64) {
         ("C08.special", "1,CONSUMO,ACS,TERMOSOLAR,20\n1,CONSUMO,NEPB,TERMOSOLAR,10\n1,PRODUCCION,TERMOSOLAR,50\n2,CONSUMO,ILU,ELECTRICIDAD,10"),
         ("C08.special", "1,CONSUMO,NEPB,EAMBIENTE,10\n1,CONSUMO,CAL,EAMBIENTE,10\n1,CONSUMO,CAL,ELECTRICIDAD,5\n2,PRODUCCION,EAMBIENTE,40"),
         ("C08.special", "1,CONSUMO,CAL,ELECTRICIDAD,5\n1,PRODUCCION,EL_INSITU,50\n2,PRODUCCION,EL_COGEN,20\n2,CONSUMO,COGEN,BIOMASA,60"),
+        // a cogeneration unit with a second fuel that is declared and idle (a line of zeros)
+        ("C08.special", "1,CONSUMO,COGEN,BIOMASA,100,100,100\n1,CONSUMO,COGEN,GASNATURAL,0,0,0\n1,PRODUCCION,EL_COGEN,30,30,30\n2,CONSUMO,ILU,ELECTRICIDAD,10,10,10"),
     ] {
         for loc in ["PENINSULA", "CANARIAS"] {
             let w = crate::factors(loc);
@@ -779,6 +783,9 @@ pub fn c16(rep: &mut Rep, seed: u64) {
         // different lengths in lines that the normalization combines (ambient use / production of one system; outputs / auxiliaries of a multi-service system)
         "1,CONSUMO,CAL,EAMBIENTE,1,2,3\n1,PRODUCCION,EAMBIENTE,1,2", "1,CONSUMO,ACS,TERMOSOLAR,1,2\n1,PRODUCCION,TERMOSOLAR,1,2,3\n2,CONSUMO,ILU,ELECTRICIDAD,1,1",
         "1,CONSUMO,CAL,ELECTRICIDAD,1,2\n1,CONSUMO,ACS,ELECTRICIDAD,1,2\n1,SALIDA,CAL,3,3,3\n1,SALIDA,ACS,1,1\n1,AUX,1,1", "1,CONSUMO,CAL,ELECTRICIDAD,1,2\n1,CONSUMO,ACS,ELECTRICIDAD,1,2\n1,SALIDA,CAL,3,3\n1,SALIDA,ACS,1,1\n1,AUX,1,1,1",
+        // the comment tags the documentation mentions, on every kind of line, with a DHW demand
+        "DEMANDA,ACS,100\n1,CONSUMO,ACS,ELECTRICIDAD,30 # CTEEPBD_EXCLUYE_SCOP_ACS\n1,CONSUMO,ACS,EAMBIENTE,70 # CTEEPBD_AUX\n1,PRODUCCION,EAMBIENTE,70 # CTEEPBD_AUX\n2,PRODUCCION,EL_INSITU,10 # CTEEPBD_AUX CTEEPBD_EXCLUYE_AUX_ACS\n1,AUX,2 # CTEEPBD_AUX\n1,SALIDA,ACS,100 # CTEEPBD_AUX CTEEPBD_EXCLUYE_SCOP_ACS",
+        "DEMANDA,ACS,50 # CTEEPBD_AUX\n1,CONSUMO,ACS,GASNATURAL,60 # CTEEPBD_EXCLUYE_AUX_ACS\n2,PRODUCCION,EL_COGEN,5 # CTEEPBD_AUX\n2,CONSUMO,COGEN,GASNATURAL,15 # CTEEPBD_AUX\n3,CONSUMO,NEPB,ELECTRICIDAD,1 # CTEEPBD_AUX",
         // only outputs / only production / empty / different lengths / odd numbers
         "1,SALIDA,CAL,30", "1,PRODUCCION,EL_COGEN,10", "", "#META CTE_AREAREF: x", "1,CONSUMO,CAL,GASNATURAL,1,2\n1,CONSUMO,ACS,GASNATURAL,1", "1,CONSUMO,CAL,GASNATURAL,NaN,inf,-1e40,1e39",
         "CONSUMO,CAL", ",,,,", "1,CONSUMO,CAL,GASNATURAL", "ñ,CONSUMO,CAL,GASNATURAL,1", "1,CONSUMO,CAL,ELECTRICIDAD,1 # com # ment\n\u{feff}",
